@@ -536,6 +536,46 @@ def runtime_part(run, tier):
                               key={"nesting": list(seq), "initial": list(init), "exception_at": boom, "preconstructed_context": pre_used,
                                    "failing_context_preconstructed": seq[what[1]].endswith("_pre")},
                               replay={"nesting": list(seq), "initial_modes": list(init), "exception_at": boom, "log": [list(map(str, l)) for l in log]})
+    # lifetimes that OVERLAP without nesting (explicit __enter__/__exit__, or a generator that holds a context across its yields): every order of entering and leaving 2 or 3
+    # contexts; on exit each restores ITS mode to the value in force when IT was entered and leaves the other mode alone
+    def interleavings(n):
+        def rec(prefix, entered, left):
+            if len(left) == n:
+                yield tuple(prefix)
+                return
+            for i in range(n):
+                if i not in entered:
+                    yield from rec(prefix + [(i, "+")], entered | {i}, left)
+                elif i not in left:
+                    yield from rec(prefix + [(i, "-")], entered, left | {i})
+        return rec([], frozenset(), frozenset())
+    for n_ctx in (2, 3):
+        for kinds in itertools.product(("ng", "rg"), repeat=n_ctx):
+            for order in interleavings(n_ctx):
+                for init in ((True, False), (False, True)):
+                    for exc in (False, True):
+                        tm.gradient__, tm.retain_grads__ = init
+                        cms = [tm.no_grad() if k == "ng" else tm.retain_grads() for k in kinds]
+                        ghost, saved, bad = list(init), {}, None
+                        for step, (i, what) in enumerate(order):
+                            j = 0 if kinds[i] == "ng" else 1
+                            if what == "+":
+                                saved[i] = ghost[j]
+                                ghost[j] = (j == 1)
+                                cms[i].__enter__()
+                            else:
+                                ghost[j] = saved[i]
+                                cms[i].__exit__(*((Boom, Boom(), None) if exc else (None, None, None)))
+                            if (tm.gradient__, tm.retain_grads__) != tuple(ghost):
+                                bad = (step, i, what, (tm.gradient__, tm.retain_grads__), tuple(ghost))
+                                break
+                        run.rt(("overlap", kinds, order, init, exc))
+                        if bad:
+                            run.violation("synapgrad.tensor.%s.%s" % ("no_grad" if kinds[bad[1]] == "ng" else "retain_grads", "exit_restores_mode_at_entry" if bad[2] == "-" else "enter_sets_mode_inside"),
+                                          "contexts %s entered/left in the order %s from modes %s%s: after step %d the modes (gradient, retain) are %s, each context restoring the mode in force at its own entry gives %s"
+                                          % (kinds, ["%s%d" % (w, i) for i, w in order], init, ", exits with an exception" if exc else "", bad[0], bad[3], bad[4]),
+                                          key={"contexts": list(kinds), "order": ["%s%d" % (w, i) for i, w in order], "initial": list(init), "overlapping_lifetimes": True},
+                                          replay={"contexts": list(kinds), "order": ["%s%d" % (w, i) for i, w in order], "initial_modes": list(init), "with_exception": exc})
     tm.gradient__, tm.retain_grads__ = True, False
     # retention after backward: leaves keep, root keeps, interiors release unless retain_grad / retain_grads
     for use_ctx, use_mark, zero_up in itertools.product([False, True], repeat=3):
